@@ -177,6 +177,30 @@ def r02_3(ctx):
             else:
                 r.violate(body.name, "write:peer_public_key", body.where(bi, si), "ECDH peer key adopted is not (only) the verified ServerKeyExchange's key")
     r.need("server_key_exchange_verified = true sites", n, 1)
+    # ... and nothing else may replace it in the client role: the flag above is sticky, so a later write of
+    # the ECDH share by another handler (the server-role ClientKeyExchange handler reached by a client)
+    # would have the ServerHelloDone gate pass on a share nobody signed.
+    others = 0
+    for body in ctx.facts.bodies(prefix="transports::dtls::"):
+        if "::tests::" in body.name or body.name == SKE:
+            continue
+        ws = core.field_writes(body, lambda f: f == "peer_public_key", deep=True)
+        if not ws:
+            continue
+        r.scope.append(body.name)
+
+        def server_role(term, meaning, *_):
+            return term == ("arg", "is_client") and meaning is False
+        g = core.guard_edges(body, server_role)
+        for bi, si, s in ws:
+            others += 1
+            if g and core.k1(body, [bi], g)[bi] is None:
+                r.ok({"site": body.where(bi, si), "peer_public_key": "written in the server role only (is_client == false edge)"})
+            else:
+                r.violate(body.name, "write:peer_public_key", body.where(bi, si),
+                          "the ECDH peer share can be replaced outside handle_server_key_exchange on a path a client can take: "
+                          "the verified flag stays set, keys are then derived from an unsigned share")
+    r.need("peer_public_key writers outside handle_server_key_exchange", others, 1)
     return r
 
 
